@@ -2,6 +2,7 @@ package checks
 
 import (
 	"bytes"
+	"context"
 	"encoding/binary"
 	"encoding/hex"
 	"fmt"
@@ -10,6 +11,9 @@ import (
 	"github.com/massnetorg/mass-core/consensus"
 	"github.com/massnetorg/mass-core/massutil"
 	"github.com/massnetorg/mass-core/txscript"
+	"github.com/massnetorg/mass-core/wire"
+	"massnet.org/mass-wallet/api"
+	pb "massnet.org/mass-wallet/api/proto"
 	"massnet.org/mass-wallet/config"
 	"massnet.org/mass-wallet/masswallet"
 	"massnet.org/mass-wallet/masswallet/utils"
@@ -140,6 +144,7 @@ func checkScriptReading(fatalf func(string, ...interface{}), s []byte) string {
 		// (the library's extractor itself panics on multisig scripts with unparsable keys, so it is only consulted for the templates)
 		_, addrs, _, _, _ = txscript.ExtractPkScriptAddrs(s, net)
 	}
+	checkAPIReading(fatalf, s, class, addrs)
 	ps, err := utils.ParsePkScript(s, net)
 	switch class {
 	case txscript.WitnessV0ScriptHashTy, txscript.StakingScriptHashTy, txscript.BindingScriptHashTy:
@@ -208,6 +213,67 @@ func checkScriptReading(fatalf func(string, ...interface{}), s []byte) string {
 			fatalf("ParsePkScript(%x): consensus class %v (not a wallet template) must read as unsupported (utils.ErrUnsupportedScript), got ps=%v err=%v", s, class, ps, err)
 		}
 		return "unsupported"
+	}
+}
+
+// ---- the API's view of an output script (DecodeRawTransaction -> extractAddressInfos) ------------
+
+var c16srv *api.APIServer
+
+// checkAPIReading wraps the script into a transaction, lets the API handler decode it and compares
+// type and address strings with the consensus library's reading. The handler may refuse scripts that
+// are no wallet template; it must not panic and must not report addresses the script does not hold.
+func checkAPIReading(fatalf func(string, ...interface{}), s []byte, class txscript.ScriptClass, addrs []massutil.Address) {
+	if c16srv == nil {
+		c16srv, _ = api.NewAPIServer(nil, nil, func() {}, &config.Config{})
+	}
+	tx := wire.NewMsgTx()
+	tx.AddTxIn(wire.NewTxIn(&wire.OutPoint{Hash: wire.Hash{1}, Index: 0}, nil))
+	tx.AddTxOut(wire.NewTxOut(12345678, s))
+	raw, err := tx.Bytes(wire.Packet)
+	if err != nil {
+		return // scripts the wire codec itself refuses cannot reach the handler
+	}
+	r, err := c16srv.DecodeRawTransaction(context.Background(), &pb.DecodeRawTransactionRequest{Hex: hex.EncodeToString(raw)})
+	template := class == txscript.WitnessV0ScriptHashTy || class == txscript.StakingScriptHashTy || class == txscript.BindingScriptHashTy
+	wantAddrs := 1
+	if class == txscript.BindingScriptHashTy {
+		wantAddrs = 2
+	}
+	if !template || len(addrs) < wantAddrs {
+		if err == nil {
+			if len(r.Vout) != 1 || r.Vout[0].Type != uint32(class) || r.Vout[0].StakingAddress != "" || r.Vout[0].BindingTarget != "" || (!template && r.Vout[0].RecipientAddress != "") {
+				fatalf("API DecodeRawTransaction(%x): script of consensus class %v (no wallet template / no encodable address) decoded as %+v", s, class, r.Vout)
+			}
+		}
+		return
+	}
+	if err != nil {
+		fatalf("API DecodeRawTransaction refused a transaction paying template script %x (class %v): %v", s, class, err)
+	}
+	if len(r.Vout) != 1 {
+		fatalf("API DecodeRawTransaction(%x): %d outputs", s, len(r.Vout))
+	}
+	v := r.Vout[0]
+	std, _ := massutil.NewAddressWitnessScriptHash(s[2:34], config.ChainParams)
+	wantStaking, wantBinding := "", ""
+	switch class {
+	case txscript.StakingScriptHashTy:
+		wantStaking = addrs[0].EncodeAddress()
+	case txscript.BindingScriptHashTy:
+		typ, size := "MASS", 0
+		if tg := s[35:]; len(tg) == 22 {
+			if tg[20] == 1 {
+				typ = "Chia"
+			}
+			size = int(tg[21])
+		}
+		wantBinding = fmt.Sprintf("%s:%s:%d", addrs[1].EncodeAddress(), typ, size)
+	}
+	if v.Type != uint32(class) || v.RecipientAddress != std.EncodeAddress() || v.StakingAddress != wantStaking || v.BindingTarget != wantBinding ||
+		v.ScriptHex != hex.EncodeToString(s) || v.Value != "0.12345678" || v.N != 0 {
+		fatalf("API DecodeRawTransaction(%x): type %d recipient %q staking %q binding %q value %q, consensus says class %d owner %s staking %q binding %q", s,
+			v.Type, v.RecipientAddress, v.StakingAddress, v.BindingTarget, v.Value, class, std.EncodeAddress(), wantStaking, wantBinding)
 	}
 }
 
